@@ -533,7 +533,7 @@ impl<'c> Eng<'c> {
             Ok((v, reads)) => {
                 self.res.clock_reads += reads;
                 if reads > 0 {
-                    self.fail("C20", "no-clock-read", "StunAgent", "", "0 clock reads during an agent call".into(), format!("{reads} reads at step {}", self.step));
+                    self.fail("C20", "no-clock-read", "StunAgent", "", "0 clock / environment reads during an agent call".into(), format!("{reads} reads at step {}", self.step));
                 }
                 Some(v)
             }
